@@ -70,3 +70,10 @@ package mysql
 //@ func (*mysql.Node).RestartSlaveIOThread
 //@   requires nonnil [safety]: n != nil
 //@   ensures C04.restart_io_frame [C04,C01]: othersUntouched(n.host) && g_ro == old(g_ro) && g_sro == old(g_sro) && g_ssMaster == old(g_ssMaster) && g_ssSlave == old(g_ssSlave) && g_wait == old(g_wait) && g_source == old(g_source) && e_SetWritable == old(e_SetWritable) && e_ChangeMaster == old(e_ChangeMaster) && e_ResetSlaveAll == old(e_ResetSlaveAll)
+
+// ---- C08: the forced read-only attempt hands its error to the caller unchanged -------------------------------
+// (stateLost classifies that error with errors.Is / errors.As; the effect clauses of this method stay assumed in
+// specs/env.spec, only the clause below is verified against the body)
+//@ func (*mysql.Node).SetReadOnlyWithForce
+//@   flags partial
+//@   assert_at return#* C08.force_error_passthrough [C08]: result != nil ==> reached("setReadonlyWithTimeout", 2) && result == resultof("setReadonlyWithTimeout", 2)
